@@ -229,6 +229,12 @@ def gen_pairs(ctx, n):
             out.append((x2, y2))
     # lists of numbers of one type with several unmatched items on both sides (the pairing distances of such lists are computed in bulk),
     # over magnitudes up to and beyond the machine word and the float range
+    import math as _math
+    near = [(0.1 + 0.2, 0.3), (1.1 + 2.2, 3.3), (0.1, _math.nextafter(0.1, 1)), (1e16, 1e16 + 2), (2.5, _math.nextafter(2.5, 0)), (5e-324, 1e-323)]
+    for (fa, fb) in near:
+        for w in (lambda v: [v, 'x', 1], lambda v: [[v], ['y']], lambda v: [{'k': v}, 5], lambda v: {'l': [(v, 1), 'z']}, lambda v: [v, v, 2]):
+            x, y = w(fa), w(fb)
+            out.append((x, y) if FAM.in_universe(x, y) else (x, y))
     big = [2 ** 70, 2 ** 71, 2 ** 70 + 1, 2 ** 71 + 1, -2 ** 70, 2 ** 63, 2 ** 63 - 1, -2 ** 63 - 1, 2 ** 53 + 1, 10 ** 30, 5, 6, 0, -7]
     bigc = [1 + 2j, 1 + 3j, 2j, 5j, -1 - 2j, 0j, 1e200 + 1j, 3 + 0j, 4.5 - 1j]        # complex leaves: outside the model universe, implementation only
     bigf = [1e308, 1.5e308, -1e308, 1e-320, 5e-324, 2.5, 0.0, 1e200, 1.0000001e200]
